@@ -685,6 +685,11 @@ class Exec:
         if not isinstance(v, IntV) or ty not in INT_RANGES:
             if isinstance(v, EnumV) and v.discr is not None:
                 return IntV(v.discr.term, ty, v.discr.const)
+            if isinstance(v, OpaqueV) and getattr(self, "havoc_unknown", False) and ty in INT_RANGES:
+                memo = self.__dict__.setdefault("_opaque_ints", {})
+                if v.what not in memo:
+                    memo[v.what] = self.ctx.fresh_int("opaque_scalar", ty)
+                return self.cast(memo[v.what], ty, fn) if memo[v.what].ty != ty else memo[v.what]
             raise EncodingError("cast of %r to %s in %s" % (v, ty, fn.name))
         lo, hi = INT_RANGES[ty]
         if v.const is not None:
